@@ -9,7 +9,9 @@
 //!   B lo hi EXPR        BoundsCursor; lo/hi = U | I:HEX | X:HEX
 //!   P ts EXPR           PruningCursor at timestamp ts
 //! entry:  KEYHEX@TS=VALHEX   or   KEYHEX@TS~   (tombstone)
+//!   K n (T ..)*n        at the top only: MergingCursor over n concrete ReferenceCursors (a Clone type)
 //! PROG tokens: F (seek_to_first) E (seek_to_last) S:HEX (seek) N (next) V (prev)
+//!   D (only under K): the cursor is replaced by its clone, nothing is printed
 //!
 //! Output: key_value() right after construction and after every call, space separated:
 //!   `-` (None) | KEYHEX@TS=VALHEX | KEYHEX@TS~ ; a call returning Err prints ERR and stops the
@@ -150,6 +152,46 @@ fn main() {
             let expr = parts.next().unwrap_or("");
             let prog = parts.next().unwrap_or("");
             let mut it = expr.split_whitespace();
+            if expr.trim_start().starts_with("K ") {
+                it.next();
+                let n: usize = it.next().expect("n").parse().expect("n");
+                let mut kids = Vec::new();
+                for _ in 0..n {
+                    assert_eq!(it.next(), Some("T"));
+                    let mut b = ReferenceBuilder::default();
+                    for (k, ts, v) in entries(&mut it) {
+                        match v {
+                            Some(v) => b.put(&k, ts, &v).expect("reference put"),
+                            None => b.del(&k, ts).expect("reference del"),
+                        }
+                    }
+                    kids.push(b.seal().expect("reference seal").cursor());
+                }
+                let mut c = MergingCursor::new(kids).expect("merging cursor");
+                outs.lock().unwrap().push(show(&c));
+                for op in prog.split_whitespace() {
+                    let r = match op {
+                        "D" => {
+                            c = c.clone();
+                            continue;
+                        }
+                        "F" => c.seek_to_first(),
+                        "E" => c.seek_to_last(),
+                        "N" => c.next(),
+                        "V" => c.prev(),
+                        _ => {
+                            let h = op.strip_prefix("S:").expect("bad op");
+                            c.seek(&unhex_e(h))
+                        }
+                    };
+                    if r.is_err() {
+                        outs.lock().unwrap().push("ERR".to_string());
+                        return;
+                    }
+                    outs.lock().unwrap().push(show(&c));
+                }
+                return;
+            }
             let mut c = match build(&mut it, &mut ctx) {
                 Ok(c) => c,
                 Err(e) => {
